@@ -630,7 +630,9 @@ func SerializeAVCSliceH(t *AVCSliceTree, sps *AVCSPSTree, pps *AVCPPSTree, hz *H
 	w.Bytes(t.SliceData)
 	w.TrailingBits()
 	info.RBSP = w.Out()
-	info.HeaderBytes = NalOccupied(info.RBSP, info.HeaderBits)
+	if info.HeaderBits <= 8*len(info.RBSP) { // false only when a Hostile hook cut the stream inside the header
+		info.HeaderBytes = NalOccupied(info.RBSP, info.HeaderBits)
+	}
 	nalu := append([]byte{nalHeader(t.NalRefIdc, t.NalUnitType)}, Escape(info.RBSP)...)
 	return nalu, info
 }
